@@ -123,6 +123,20 @@ class RuleContext:
             self.errors.append(f"sub-rule {getattr(fn, '__name__', fn)} crashed on an unrecognised shape: {type(e).__name__}: {e} ({tb.filename.split('/')[-1]}:{tb.lineno})")
             return None
 
+    def reuse(self, new_rule: str, fn, *args, **kwargs):
+        """Run a sub-rule that belongs to another property as clause `new_rule` of this one: whatever
+        it records (findings, obligations) is re-labelled; isolated like `sub`."""
+        n_f, n_o = len(self.findings), len(self.obligations)
+        try:
+            return self.sub(fn, *args, **kwargs)
+        finally:
+            for f in self.findings[n_f:]:
+                f.rule = new_rule
+                if hasattr(f, "_key"):
+                    del f._key
+            for o in self.obligations[n_o:]:
+                o.rule = new_rule
+
     # -- recording ---------------------------------------------------------
     def ok(self, rule: str, where: str, what: str) -> None:
         self.obligations.append(Obligation(rule, where, what, True))
